@@ -265,5 +265,46 @@ def abs (c : Sim) : ACluster :=
   { base := { nodes := c.nodes.map (fun nd => nd.ps.sh), sent := c.issued, log := c.log }, snaps := c.snaps }
 
 end Sim
+/-! ### conditional SET through `SimulatedNode::execute`
+
+  `execute` runs ANY command on the executor and records every `Command::Set { .. }` with
+  `record_write`, whatever the executor answered.  For `SET k v NX` / `XX` the executor applies the
+  write only when its condition holds. -/
+
+/-- does the executor apply `SET k v NX` (`nx`) / `SET k v XX` (`!nx`)? -/
+def condApplies (kv : NMap Bytes) (k : Nat) (nx : Bool) : Bool :=
+  if nx then (NMap.get kv k).isNone else (NMap.get kv k).isSome
+
+/-- `false` = the code as it is: a refused SET is recorded (and gossiped) all the same;
+    `true` = only what the executor applied is recorded (fix prepared on `fixes-glue-s4`) -/
+def currentGate : Bool := false
+
+inductive XEv where
+  | plain (e : SEv)
+  | setCond (i k : Nat) (v : Bytes) (nx : Bool)
+  deriving DecidableEq, Repr
+
+namespace Sim
+
+def stepX (gate : Bool) (H : AE.Hasher) (cfg : Cfg) (c : Sim) : XEv → Sim
+  | .plain e => c.step H cfg e
+  | .setCond i k v nx =>
+    match c.nodes[i]? with
+    | none => c
+    | some nd =>
+      if condApplies nd.kv k nx then c.step H cfg (.exec i (.set k v none))
+      else if gate then c
+      else
+        -- refused by the executor, recorded all the same
+        let r := SNode.record cfg.pendingCap i nd.ps [.write k v none]
+        { c with
+          nodes := c.nodes.set i { ps := r.1, kv := nd.kv }
+          issued := c.issued ++ r.2
+          log := c.log ++ r.2.map (fun m => ⟨i, m.key, m.val⟩) }
+
+def runX (gate : Bool) (H : AE.Hasher) (cfg : Cfg) (c : Sim) (evs : List XEv) : Sim := evs.foldl (stepX gate H cfg) c
+
+end Sim
+
 end SimC
 end RedisVerif
